@@ -475,7 +475,7 @@ class Q:
                         import hashlib
                         h = hashlib.sha1(txt.encode()).hexdigest()[:16]
                         with open(os.path.join(xdir, "%s-%s.smt2" % (res, h)), "w") as f:
-                            f.write(txt)
+                            f.write("(set-logic ALL)\n" + txt)
                 except Exception:
                     pass
         if sample_tag is not None and len(self.stats.samples) < 3:
